@@ -11,7 +11,12 @@ listen_port) of a server instance whose mode serves `listen_transport` in {tcp, 
                                  ::1, an IPv4-mapped loopback address, or the wildcard 0.0.0.0 / ::) )
 
     post: (exists L. own(dest, L))  =>  server.error is set (destination-unknown error)
-          no listener has the same port+transport and a host that could denote us  =>  server.error unchanged
+          no listener has the same port+transport and a host text that is the listen host or a local spelling  =>  server.error unchanged
+          (a local spelling on our port is refused whatever the listen host is: the statement only forbids connecting, it does not
+          demand that such a request succeeds)
+
+Modular: `_denotes_local(host)` has its own contract (scenario _denotes_local) and is an uninterpreted predicate in the
+server_connect contract.
           server.sockname is filled from _connect_addr only when it was None; nothing else changes.
 
 Address texts are parsed by the ipaddress library (uninterpreted (version, value) in T1); the classes "loopback" and
@@ -21,10 +26,10 @@ from pyvc.api import *
 from props.prelude import *
 
 CLAIM = "other"
-EXPLANATION = ("T1 proves the guard against the statement's denotes-own-socket predicate for all destination texts, ports, listen addresses and transports, but over a bounded "
-               "structure (the double loop over server instances x listen addresses is unrolled for <= 2 instances with <= 2 addresses each, no loop invariant); two recorded findings "
-               "(spellings other than the four compared literals; listeners of modes that serve both transports) are excluded by their class predicates and re-witnessed natively on "
-               "every run. Larger listener configurations and the statement's spelling list are enumerated on the real addon (T2)")
+EXPLANATION = ("T1 proves _denotes_local against the statement's spelling classes (relative to the ipaddress model) and the guard of server_connect against the "
+               "denotes-own-socket predicate for all destination texts, ports, listen addresses and transports, but over a bounded structure (the double loop over server "
+               "instances x listen addresses is unrolled for <= 2 instances with <= 2 addresses each, no loop invariant). Larger listener configurations and the statement's "
+               "spelling list are enumerated on the real addon (T2)")
 P = "mitmproxy.addons.proxyserver:Proxyserver"
 MS = "mitmproxy.proxy.mode_specs:"
 TWO24, TWO32 = 2 ** 24, 2 ** 32
@@ -34,6 +39,8 @@ MODE_OF = {"tcp": "RegularMode", "udp": "WireGuardMode", "both": "DnsMode"}
 ASSUMPTIONS = [
     "ipaddress.ip_address(text) is an uninterpreted parser (version, numeric value) of host texts; loopback/wildcard classes are defined numerically on its result",
     "str.lower() is an uninterpreted function (idempotent, length preserving) in T1",
+    "library facts used by the _denotes_local contract (checked natively on every replay): IPv4Address.is_loopback <=> value in 127.0.0.0/8; for an IPv6 address that is not IPv4-mapped, is_loopback <=> value == 1; is_unspecified <=> value == 0",
+    "in the server_connect contract _denotes_local is an uninterpreted predicate of the host text (real function natively)",
     "listen hosts are IP literals (they come from getsockname())",
     "structure bound of the T1 scenario: <= 2 server instances with <= 2 listen addresses each (all contents symbolic); larger configurations are covered by T2 only",
 ]
@@ -72,18 +79,75 @@ def is_wildcard_addr(ver, val):
     return And(Or(ver == 4, ver == 6), val == 0)
 
 
-def denotes_local(vc, host):
-    """connect_host is a loopback name/address or the wildcard address"""
+from mitmproxy.addons import proxyserver as _proxyserver  # noqa: E402
+
+_ORIG = [_proxyserver._denotes_local]          # boxed: native summaries also patch module-level aliases
+DL = "mitmproxy.addons.proxyserver:_denotes_local"
+
+
+def _register_oracles():
+    from pyvc import lib
+    lib.UF_ORACLES["denotes_local23"] = lambda s: bool(_ORIG[0](s))
+
+
+_register_oracles()
+
+
+def local_pred(vc, host):
+    """the (separately contracted) predicate _denotes_local: uninterpreted in proof mode, the real function natively"""
+    if vc.mode == "native":
+        return bool(_ORIG[0](host))
+    import z3
+    from pyvc import lib
+    return SBool(lib.uf("denotes_local23", z3.StringSort(), z3.BoolSort())(host.t))
+
+
+# ---------------------------------------------------------------------------------------------
+# _denotes_local(host)  <=>  host is `localhost` in any case with an optional trailing dot, an address in 127.0.0.0/8, ::1,
+#                            an IPv4-mapped loopback address, or the wildcard address 0.0.0.0 / ::
+
+DL_CANDS = [{"host": h} for h in ("localhost", "LOCALHOST", "LocalHost.", "localhost..", "xlocalhost", "127.0.0.1", "127.255.255.254", "128.0.0.1", "::1", "::2",
+                                   "::ffff:127.0.0.1", "::ffff:128.0.0.1", "::ffff:0.0.0.0", "0.0.0.0", "::", "example.com", "")]
+
+
+@scenario("_denotes_local", functions=[DL], candidates=DL_CANDS)
+def s_denotes_local(vc):
+    host = vc.sym_str("host")
     ver, val = ip_parse(vc, host)
+    if vc.mode == "sym":
+        vc.assume(And(val >= 0, If(ver == 4, val < TWO32, val < 2 ** 128)))
+    mapped = And(ver == 6, val // TWO32 == 0xFFFF)
+    # library facts (see ASSUMPTIONS), instantiated on the values the function can ask about
+    if vc.mode == "sym":
+        from pyvc import libx_addons as X
+        v4 = If(mapped, val % TWO32, val)
+        vc.assume(Iff(SBool(X.ip_pred_t("is_loopback", 4, v4.t)), v4 // TWO24 == 127))
+        vc.assume(Implies(Not(mapped), Iff(SBool(X.ip_pred_t("is_loopback", 6, val.t)), val == 1)))
+    else:
+        import ipaddress
+        if ver == 4:
+            vc.assume(ipaddress.IPv4Address(val).is_loopback == (val // TWO24 == 127))
+        if ver == 6 and not mapped:
+            vc.assume(ipaddress.IPv6Address(val).is_loopback == (val == 1))
+    out = vc.call(DL, host)
+    vc.ensure("total", out.ok)
+    if not out.ok:
+        return
     lo = lower(vc, host)
-    return Or(lo == "localhost", lo == "localhost.", is_loopback_addr(ver, val), is_wildcard_addr(ver, val))
+    name = Or(lo == "localhost", lo == "localhost.")
+    spec = Or(name, is_loopback_addr(ver, val), is_wildcard_addr(ver, val), And(mapped, val % TWO32 == 0))
+    r = out.result
+    vc.ensure("result.iff_statement_spelling_classes", Iff(vc.truthy(r) if vc.mode == "native" else vc.eq(r, True), spec))
+    vc.ensure("result.is_bool", Or(vc.eq(r, True), vc.eq(r, False)))
 
 
 def cands():
     out = []
     for ch in ("localhost", "LOCALHOST", "localhost.", "127.0.0.1", "127.0.0.2", "::1", "::ffff:127.0.0.1", "0.0.0.0", "::", "example.com", "192.168.1.5"):
         for lh in ("127.0.0.1", "::1", "0.0.0.0", "::", "192.168.1.5"):
-            out.append({"connect_host": ch, "listen_host_0_0": lh, "listen_host_0_1": "::", "listen_host_1_0": "192.168.1.5", "listen_host_1_1": lh})
+            for cp in (8080, 8081):
+                out.append({"connect_host": ch, "connect_port": cp, "listen_host_0_0": lh, "listen_host_0_1": "::", "listen_host_1_0": "192.168.1.5", "listen_host_1_1": lh,
+                            "listen_port_0_0": 8080, "listen_port_0_1": 8080, "listen_port_1_0": 8080, "listen_port_1_1": 8080})
     return out
 
 
@@ -119,41 +183,26 @@ def s_server_connect(vc):
     pre_error = vc.opt("pre_error", vc.sym_str("pre_error_v"))
     server = mk_server(vc, address=(ch, cp), transport_protocol=ct, sockname=pre_sock, error=pre_error)
     data = vc.new("mitmproxy.proxy.server_hooks:ServerConnectionHookData", server=server, client=mk_client(vc))
-    cver, cval = ip_parse(vc, ch)
-    if vc.mode == "sym":
-        vc.assume(And(cval >= 0, cval < 2 ** 128))
-    # ground facts about the library on the three literal spellings the statement names (checked natively on every replay)
-    v4, x4 = ip_parse(vc, vc.lift("127.0.0.1") if vc.mode == "sym" else "127.0.0.1")
-    v6, x6 = ip_parse(vc, vc.lift("::1") if vc.mode == "sym" else "::1")
-    vc.assume(And(v4 == 4, x4 == 0x7F000001, v6 == 6, x6 == 1))
-    vc.assume(lower(vc, vc.lift("localhost") if vc.mode == "sym" else "localhost") == "localhost")
+    vc.summary(DL, lambda v, h: local_pred(v, h if v.mode == "native" else v.resolve(h)))
     out = vc.call(P + ".server_connect", self_, data)
     vc.ensure("no_exception", out.ok)
     if not out.ok:
         return
-    local = denotes_local(vc, ch)
-    own_exact, own_both, literal_hit, maybe = [], [], [], []
+    local = local_pred(vc, ch)
+    own, maybe = [], []
     for lh, lp, lt, lver, lval in listeners:
+        if not (lt == ct or lt == "both"):          # "for the same transport": a mode serving both transports serves this one
+            continue
         listens_local = Or(is_loopback_addr(lver, lval), is_wildcard_addr(lver, lval))
-        host_own = Or(ch == lh, And(listens_local, local))
         same_port = cp == lp
-        if lt == ct:
-            own_exact.append(And(same_port, host_own))
-            literal_hit.append(And(same_port, Or(ch == lh, *[ch == x for x in LITERALS])))
-        elif lt == "both":
-            own_both.append(And(same_port, host_own))
-        if lt == ct or lt == "both":
-            maybe.append(And(same_port, Or(ch == lh, local)))
+        own.append(And(same_port, Or(ch == lh, And(listens_local, local))))
+        maybe.append(And(same_port, Or(ch == lh, local)))
     post = server.error
     err_set = _truthy_str(vc, post)
-    caught = Or(*literal_hit) if literal_hit else False
-    # (1) listeners of exactly the destination's transport.  KF-C23-1: spellings other than the four literals compared by the code
-    if own_exact:
-        vc.ensure_kf("own_socket.refused", Implies(Or(*own_exact), err_set), "KF-C23-1", Not(caught))
-    # (2) listeners that serve both transports (dns, reverse:https/dns, local, tun).  KF-C23-2: never matched by the code
-    if own_both:
-        vc.ensure_kf("own_socket.refused.listener_on_both_transports", Implies(Or(*own_both), err_set), "KF-C23-2", Not(caught))
-    # (3) clearly not our socket: unchanged
+    # (1) the destination denotes one of our listening sockets => refused
+    if own:
+        vc.ensure("own_socket.refused", Implies(Or(*own), err_set))
+    # (2) clearly not our socket (other port / other transport / a host text that is neither the listen host nor a local spelling): unchanged
     not_ours = Not(Or(*maybe)) if maybe else True
     vc.ensure("not_own.error_unchanged", Implies(not_ours, _unchanged(vc, post, pre_error)))
     vc.ensure("error.only_set_or_unchanged", Or(err_set, _unchanged(vc, post, pre_error)))
@@ -260,11 +309,21 @@ def bounded(tier, seed):
                 b.fail("server_connect.total", inp, f"raised {type(e).__name__}: {e}")
                 continue
             if own and not err:
-                cls = _class_of(ch, cp, ct, cfg)
-                b.fail("server_connect.own_socket_refused" + cls, inp, "destination denotes our own listening socket but server.error is not set")
+                b.fail("server_connect.own_socket_refused", inp, "destination denotes our own listening socket but server.error is not set")
             maybe = any(cp == a[1] and (_lt(s) in (ct, "both")) and (ch == a[0] or _spec_own(ch, cp, ct, "127.0.0.1", cp, ct)) for s, addrs in cfg for a in addrs)
             if not maybe and err:
                 b.fail("server_connect.not_own_untouched", inp, f"error set for a destination that is not ours: {err!r}")
+    # _denotes_local itself on the spelling list (+ near misses)
+    from mitmproxy.addons import proxyserver
+    for h in SPELLINGS + ["localhost..", ".localhost", "localhost.x", "local host", "127.0.0.1.", "::ffff:128.0.0.1", "::ffff:0.0.0.0", "::ffff:0:0", "0", "0x7f.1", "::1%lo", "", "LOCALHOST "]:
+        b.case(("denotes_local", h), nontrivial=_spec_local(h))
+        try:
+            got = bool(proxyserver._denotes_local(h))
+        except Exception as e:
+            b.fail("denotes_local.total", {"host": h}, f"raised {type(e).__name__}: {e}")
+            continue
+        if got != _spec_local(h):
+            b.fail("denotes_local.matches_statement_spellings", {"host": h}, f"expected {_spec_local(h)}, got {got}")
     return b
 
 
@@ -273,14 +332,18 @@ def _lt(spec):
     return mode_specs.ProxyMode.parse(spec).transport_protocol
 
 
-def _class_of(ch, cp, ct, cfg):
-    """name of the recorded-finding class of a missed self-connect: [spelling] (KF-C23-1: own through a listener of exactly the
-    destination's transport, host text not one of the compared literals) / [both-transports] (KF-C23-2: own only through listeners
-    of modes serving both transports)"""
-    own_exact = any(_lt(s) == ct and _spec_own(ch, cp, ct, a[0], a[1], ct) for s, addrs in cfg for a in addrs)
-    literal = any(_lt(s) == ct and cp == a[1] and ch in LITERALS + (a[0],) for s, addrs in cfg for a in addrs)
-    if own_exact and not literal:
-        return "[spelling]"
-    if not own_exact:
-        return "[both-transports]"
-    return ""
+def _spec_local(host):
+    """the statement's spelling classes, written independently of the code"""
+    import ipaddress
+    if host.lower() in ("localhost", "localhost."):
+        return True
+    try:
+        a = ipaddress.ip_address(host)
+    except ValueError:
+        return False
+    v = int(a)
+    if a.version == 6 and (v >> 32) == 0xFFFF:
+        v, four = v & 0xFFFFFFFF, True
+    else:
+        four = a.version == 4
+    return v == 0 or (v >> 24 == 127 if four else v == 1)
